@@ -2,7 +2,7 @@
 C03 — the 8-bit radix step and the out-of-place 8-bit radix sorts.
 -/
 import TlxVerif.Model.C03Radix
-import TlxVerif.Proofs.C03Blocks
+import TlxVerif.Proofs.C03Scatter
 namespace TlxVerif.C03
 
 variable {α : Type} (str : α → Str)
@@ -372,6 +372,7 @@ theorem ce8Loop_spec (c : Consts) (wl : Bool) (step : Nat) (hM : MkqsOk str c wl
   | succ fuel ih =>
     intro ss l d level mem hlen hpre
     simp only [ce8Loop]
+    rw [scatterBuckets_eq 256 _ ss (fun x _ => key8_lt_256 _ _)]
     have hmem := buckets_mem 256 (fun x => key8 (str x) d) ss
     apply step8_spec str wl d ss l _ _
       (buckets_perm 256 _ ss (fun x _ => key8_lt_256 _ _))
